@@ -1,7 +1,7 @@
 #!/bin/bash
 # tools/try_mutant.sh <patch.diff> <Cxx> [tier]   : apply to /repo, run the check, undo
 diff="$1"; pid="$2"; tier="${3:-quick}"
-git -C /repo apply "$diff" || { echo "patch does not apply"; exit 3; }
+git -C /repo apply "$(realpath "$diff")" || { echo "patch does not apply"; exit 3; }
 cd /verif && ./check "$pid" "$tier"; rc=$?
 git -C /repo checkout -- .
 echo "rc=$rc"
